@@ -276,6 +276,75 @@ func main() {
 			})
 		}
 	}
+	// ---- two syncers in one process: another iterator builds a value between this iterator's decision and the
+	// moment the strategy stores it ----
+	for _, clean := range []bool{false, true} {
+		for _, otherDeleted := range []bool{false, true} {
+			dbiN++
+			dbiName := fmt.Sprintf("w%d", dbiN%20)
+			must(env.Update(func(txn *lmdb.Txn) error {
+				dbi, err := txn.OpenDBI(dbiName, lmdb.Create)
+				if err != nil {
+					return err
+				}
+				if err := txn.Drop(dbi, false); err != nil {
+					return err
+				}
+				return txn.Put(dbi, []byte("stored-only"), world.MakeHdr(1, 1, 0, 0, []byte("gone")), 0)
+			}))
+			mine := snapshot.NewDBISize(256)
+			mine.Append(snapshot.KV{Key: []byte("mine"), Value: []byte("value-one"), TimestampNano: 111})
+			theirs := snapshot.NewDBISize(256)
+			var ofl uint32
+			if otherDeleted {
+				ofl = 1
+			}
+			theirs.Append(snapshot.KV{Key: []byte("theirs"), Value: bytes.Repeat([]byte("O"), 40), TimestampNano: 999, Flags: ofl})
+			var id int64
+			err := env.Update(func(txn *lmdb.Txn) error {
+				id = int64(txn.ID())
+				dbi, _ := txn.OpenDBI(dbiName, 0)
+				it, err := syncer.NewNativeIterator(3, 1, mine, 5, header.TxnID(txn.ID()), 0)
+				if err != nil {
+					return err
+				}
+				oit, err := syncer.NewNativeIterator(3, 1, theirs, 7, 424242, 0)
+				if err != nil {
+					return err
+				}
+				if _, err := oit.Next(); err != nil {
+					return err
+				}
+				d := &disturbed{NativeIterator: it, other: func() { _, _ = oit.Merge(nil) }}
+				if clean {
+					return strategy.IterUpdate(txn, dbi, d)
+				}
+				return strategy.Update(txn, dbi, d)
+			})
+			pw.Transitions++
+			if err != nil {
+				r.Violate(pw.Name, "update-error", fmt.Sprintf("disturbed clean=%v: %v", clean, err), nil)
+				continue
+			}
+			_ = env.View(func(txn *lmdb.Txn) error {
+				dbi, _ := txn.OpenDBI(dbiName, 0)
+				rep := map[string]any{"clean": clean, "other_deleted": otherDeleted}
+				if raw, err := txn.Get(dbi, []byte("mine")); err != nil {
+					r.Violate(pw.Name, "merged-entry-missing", "disturbed: key mine", rep)
+				} else {
+					check(fmt.Sprintf("disturbed-merge (another iterator builds a value in between) clean=%v otherDeleted=%v", clean, otherDeleted), raw, 111, id, false, []byte("value-one"), false, rep)
+				}
+				if clean {
+					if raw, err := txn.Get(dbi, []byte("stored-only")); err != nil {
+						r.Violate(pw.Name, "captured-entry-missing", "disturbed: key stored-only", rep)
+					} else {
+						check(fmt.Sprintf("disturbed-clean (another iterator builds a value in between) otherDeleted=%v", otherDeleted), raw, 5, id, true, nil, false, rep)
+					}
+				}
+				return nil
+			})
+		}
+	}
 	pw.States = int64(len(classes))
 	pw.Distinct = int64(len(classes))
 	pw.Bound = fmt.Sprintf("format 1..3 x padding on/off x %d timestamps x %d values x %d entry flag values x stored{absent,live,deleted,live+2ext}; capture: padding x 3 default timestamps x {changed, vanished, vanished+ext, marker, unchanged, new}", len(tss), len(vals), len(flagsAlpha))
@@ -418,6 +487,25 @@ func main() {
 			Param: loopworld.Cfg{Native: native, Remote2: true, Straddle: true, MaxVisits: 1, AppOps: []string{"put-b", "del-a"}}})
 	}
 	r.Finish()
+}
+
+// disturbed lets another iterator (of another Syncer in the same process) build a value right after this
+// iterator's Merge/Clean decision, i.e. before the strategy stores the returned bytes.
+type disturbed struct {
+	*syncer.NativeIterator
+	other func()
+}
+
+func (d *disturbed) Merge(old []byte) ([]byte, error) {
+	v, err := d.NativeIterator.Merge(old)
+	d.other()
+	return v, err
+}
+
+func (d *disturbed) Clean(old []byte) ([]byte, error) {
+	v, err := d.NativeIterator.Clean(old)
+	d.other()
+	return v, err
 }
 
 func must(err error) {
